@@ -13,11 +13,13 @@ import (
 	"sort"
 	"strings"
 
+	"0chain.net/chaincore/block"
 	"0chain.net/chaincore/client"
 	"0chain.net/chaincore/transaction"
 	"0chain.net/core/common"
 	"0chain.net/core/config"
 	"0chain.net/core/encryption"
+	"github.com/spf13/viper"
 	"verifharness/vh"
 )
 
@@ -62,7 +64,44 @@ func txVerdict(stage string, err error) string {
 
 // txCase builds the model's validation input from independently computed pieces of the real
 // code (never from the verdict), then runs the real acceptance path for the verdict.
+func blockSuffix(b bool) string {
+	if b {
+		return "B"
+	}
+	return ""
+}
+
+// blockAccepts runs the transaction through the path a received block takes:
+// Block.ComputeProperties (-> txn.ComputeProperties) and the real miner.ValidateTransactions.
+func blockAccepts(t0 *transaction.Transaction, scheme string, now common.Timestamp) (accepted bool, pn string) {
+	// ValidateTransactions panics inside a worker goroutine (unrecoverable) when the key of a
+	// transaction does not decode; such transactions are kept off the block path
+	if _, err := verifierFor(scheme, t0.PublicKey); err != nil {
+		return false, ""
+	}
+	c, mc := getChain()
+	viper.Set("server_chain.client.signature_scheme", scheme)
+	setBatchSize(c, 2)
+	t := t0.Clone()
+	b := &block.Block{}
+	b.Round = 1
+	b.CreationDate = now
+	b.Txns = []*transaction.Transaction{t}
+	var err error
+	pn = safely(func() {
+		if err = b.ComputeProperties(); err != nil {
+			return
+		}
+		err = mc.ValidateTransactions(context.Background(), b)
+	})
+	return pn == "" && err == nil, pn
+}
+
 func txCase(t0 *transaction.Transaction, scheme string, now common.Timestamp) (coq string, verdict string) {
+	return txCaseOn(t0, scheme, now, false)
+}
+
+func txCaseOn(t0 *transaction.Transaction, scheme string, now common.Timestamp, block bool) (coq string, verdict string) {
 	t := t0.Clone()
 	scOK := true
 	if t.TransactionType == transaction.TxnTypeSmartContract {
@@ -88,11 +127,15 @@ func txCase(t0 *transaction.Transaction, scheme string, now common.Timestamp) (c
 			sig = vh.Some(vh.Bool(ok))
 		}
 	}
-	coq = fmt.Sprintf("(HcTx {| txi_sc_data_ok := %s; txi_pk_empty := %s; txi_client_empty := %s; txi_key_id := %s; txi_client := %s; txi_to := %s; txi_to_is_hash := %s; txi_chain_ok := %s; txi_hash := %s; txi_in_time := %s; txi_computed := %s; txi_sig := %s; txi_output_hash := %s; txi_output_computed := %s |} ",
-		vh.Bool(scOK), vh.Bool(t.PublicKey == ""), vh.Bool(t.ClientID == ""), keyID, vh.Str(t.ClientID), vh.Str(t.ToClientID),
+	coq = fmt.Sprintf("(HcTx%s {| txi_sc_data_ok := %s; txi_pk_empty := %s; txi_client_empty := %s; txi_key_id := %s; txi_client := %s; txi_to := %s; txi_to_is_hash := %s; txi_chain_ok := %s; txi_hash := %s; txi_in_time := %s; txi_computed := %s; txi_sig := %s; txi_output_hash := %s; txi_output_computed := %s |} ",
+		blockSuffix(block), vh.Bool(scOK), vh.Bool(t.PublicKey == ""), vh.Bool(t.ClientID == ""), keyID, vh.Str(t.ClientID), vh.Str(t.ToClientID),
 		vh.Bool(encryption.IsHash(t.ToClientID)), vh.Bool(config.ValidChain(t.ChainID) == nil), vh.Str(t.Hash),
 		vh.Bool(common.WithinTime(int64(now), int64(t.CreationDate), transaction.TXN_TIME_TOLERANCE)),
 		vh.Str(computed), sig, vh.Str(t.OutputHash), vh.Str(t.ComputeOutputHash()))
+	if block {
+		ok, _ := blockAccepts(t0, scheme, now)
+		return coq + vh.Bool(ok) + ")", vh.Bool(ok)
+	}
 	var stage string
 	var err error
 	run := t0.Clone()
@@ -101,6 +144,37 @@ func txCase(t0 *transaction.Transaction, scheme string, now common.Timestamp) (c
 	}
 	verdict = txVerdict(stage, err)
 	return coq + verdict + ")", verdict
+}
+
+// blockOracle: the block path may accept only what the submission path's conditions allow:
+// stored hash = hash of the contents, signature valid for that hash under the key whose hash is the id.
+func blockOracle(t0 *transaction.Transaction, scheme string, now common.Timestamp) (accepted bool, fail, why string) {
+	t := t0.Clone()
+	if t.OutputHash == "" { // ValidateTransactions insists on an output hash
+		t.OutputHash = t.ComputeOutputHash()
+	}
+	ok, pn := blockAccepts(t, scheme, now)
+	if pn != "" {
+		return false, "C30:block-validation-panics", pn
+	}
+	if !ok {
+		return false, "", ""
+	}
+	h := t.Clone()
+	if err := h.ComputeProperties(); err != nil {
+		return true, "C30:key-id-mismatch-accepted", "block path accepts a transaction that ComputeProperties rejects"
+	}
+	if h.ComputeHash() != t.Hash {
+		return true, "C30:hash-mismatch-accepted", "block path (ComputeProperties + miner.ValidateTransactions) accepts a transaction whose Hash is not the hash of its contents"
+	}
+	ss, err := verifierFor(scheme, t.PublicKey)
+	if err != nil {
+		return true, "C30:bad-signature-accepted", "block path accepts a transaction whose public key does not decode"
+	}
+	if v, _, _ := verifyNoPanic(ss, t.Signature, t.Hash); !v {
+		return true, "C30:bad-signature-accepted", "block path accepts a transaction whose signature does not verify"
+	}
+	return true, "", ""
 }
 
 func txnObject(t *transaction.Transaction) (obj, hashes string) {
@@ -169,7 +243,7 @@ func runC30(o vh.Opts) {
 	rep.Rule = "random real signed transactions for both client schemes (send / data / smart-contract types, edge values for value, nonce, fee, " +
 		"empty or derived client id, empty recipient); per transaction every exported scalar field is mutated one at a time (hash and signature kept) " +
 		"and pushed through ComputeProperties+ValidateWrtTime; plus tampered hash, tampered / foreign / replayed signature, swapped public key, " +
-		"swapped sender, stale time. Non-trivial = the untampered transaction is accepted, at least one tampering is rejected and at least one is accepted; " +
+		"swapped sender, stale time; every tampered transaction is also put in a block and run through Block.ComputeProperties + the real miner.ValidateTransactions (aggregate path for bls0chain). Non-trivial = the untampered transaction is accepted, at least one tampering is rejected and at least one is accepted; " +
 		"distinct by (seed, scheme, index)"
 	cf := &vh.CasesFile{Imports: []string{"Base.Corr", "Model.HashEnc", "Corr.HashEnc"}, CaseType: "hc_case", CheckFn: "hc_check"}
 	addCase := func(term string, in interface{}) {
@@ -233,6 +307,20 @@ func runC30(o vh.Opts) {
 				accepted++
 			} else {
 				rejected++
+			}
+			if acc, bf, why := blockOracle(t, in.Scheme, now); bf != "" {
+				mi.Note = "block path, field " + p
+				rep.Violate(bf, why+" (tampered "+p+")", mi)
+			} else {
+				rep.Count(fmt.Sprintf("block-field-%s-%v", p, acc))
+			}
+			if toCoq {
+				tb := t.Clone()
+				if tb.OutputHash == "" {
+					tb.OutputHash = tb.ComputeOutputHash()
+				}
+				cb, _ := txCaseOn(tb, in.Scheme, now, true)
+				addCase(cb, mi)
 			}
 			if name, req := c30Required[p]; req && err == nil {
 				mi.Note = "required: " + name
@@ -317,6 +405,12 @@ func runC30(o vh.Opts) {
 				err = fmt.Errorf("panic")
 			}
 			rep.Count("tamper-" + tm.name + "-" + txVerdict(stage, err))
+			if acc, bf, why := blockOracle(t, in.Scheme, now); bf != "" {
+				mi.Note = "block path, " + tm.name
+				rep.Violate(bf, why+" ("+tm.name+")", mi)
+			} else {
+				rep.Count(fmt.Sprintf("block-tamper-%s-%v", tm.name, acc))
+			}
 			if err == nil {
 				accepted++
 				rep.Violate(tm.must, "ComputeProperties+ValidateWrtTime accept a transaction with "+tm.name, mi)
